@@ -6,6 +6,14 @@ import os
 VERIF = os.path.dirname(os.path.dirname(os.path.abspath(__file__)))
 
 CHECKS = {
+    "C11": dict(level="exploration", design="4 C11",
+                text="Generated repetitions of every kind (zero counts, negative/duplicate/zero vectors, explicit lists to "
+                     "length 30) on every element kind are compared with my own enumeration: count, offsets, extrema, "
+                     "apply_repetition (deep, one copy per non-zero-index vector, original cleared) and "
+                     "Repetition::transform. Sampled exploration with shrinking.",
+                note="Trusted: the 20-line reference enumeration in pbt/repgen.py. Zero counts denote the empty set, an empty "
+                     "explicit list denotes {0} (DESIGN 4 C11).",
+                technique="property-based testing (Hypothesis) against a reference enumeration"),
     "C14": dict(level="exploration", design="4 C14",
                 text="Exhaustive small-grid enumeration (every vertex list up to length 4/5 on a 4x4 grid x 121 query "
                      "points) plus Hypothesis-generated polygons/point sets against an exact integer winding-number "
